@@ -666,6 +666,9 @@ class Exec:
             # model cannot follow arbitrary files: end the run cleanly here
             self.do_eof()
             return False
+        if getattr(self, "nonstop", False):
+            del self.w.viol[20:]
+            return not self.h.dead
         return not self.w.viol and not self.h.dead
 
     def do_reload(self, c):
